@@ -26,11 +26,11 @@ where
     len += read_required_field(reader, dst)?;
     bounds.standard_fields_ends[1] = dst.len();
 
-    let (n, is_eol) = read_field(reader, dst)?;
+    let (n, terminator) = read_field(reader, dst)?;
     len += n;
     bounds.standard_fields_ends[2] = dst.len();
 
-    if !is_eol {
+    if terminator == Some(DELIMITER) {
         len += read_other_fields(reader, dst, bounds)?;
     }
 
@@ -62,11 +62,11 @@ where
     len += read_required_field(reader, dst)?;
     bounds.standard_fields_ends[2] = dst.len();
 
-    let (n, is_eol) = read_field(reader, dst)?;
+    let (n, terminator) = read_field(reader, dst)?;
     len += n;
     bounds.standard_fields_ends[3] = dst.len();
 
-    if !is_eol {
+    if terminator == Some(DELIMITER) {
         len += read_other_fields(reader, dst, bounds)?;
     }
 
@@ -101,11 +101,11 @@ where
     len += read_required_field(reader, dst)?;
     bounds.standard_fields_ends[3] = dst.len();
 
-    let (n, is_eol) = read_field(reader, dst)?;
+    let (n, terminator) = read_field(reader, dst)?;
     len += n;
     bounds.standard_fields_ends[4] = dst.len();
 
-    if !is_eol {
+    if terminator == Some(DELIMITER) {
         len += read_other_fields(reader, dst, bounds)?;
     }
 
@@ -143,11 +143,11 @@ where
     len += read_required_field(reader, dst)?;
     bounds.standard_fields_ends[4] = dst.len();
 
-    let (n, is_eol) = read_field(reader, dst)?;
+    let (n, terminator) = read_field(reader, dst)?;
     len += n;
     bounds.standard_fields_ends[5] = dst.len();
 
-    if !is_eol {
+    if terminator == Some(DELIMITER) {
         len += read_other_fields(reader, dst, bounds)?;
     }
 
@@ -214,17 +214,14 @@ where
 {
     let mut len = 0;
 
+    // This is only called after a delimiter, i.e., there is always another (possibly empty) field.
     loop {
-        let (n, is_eol) = read_field(reader, dst)?;
-
-        if n == 0 {
-            break;
-        }
+        let (n, terminator) = read_field(reader, dst)?;
 
         len += n;
         bounds.other_fields_ends.push(dst.len());
 
-        if is_eol {
+        if terminator != Some(DELIMITER) {
             break;
         }
     }
@@ -236,21 +233,24 @@ fn read_required_field<R>(reader: &mut R, dst: &mut Vec<u8>) -> io::Result<usize
 where
     R: BufRead,
 {
-    let (len, is_eol) = read_field(reader, dst)?;
+    let (len, terminator) = read_field(reader, dst)?;
 
-    if is_eol {
+    if terminator == Some(LINE_FEED) {
         Err(io::Error::new(io::ErrorKind::InvalidData, "unexpected EOL"))
     } else {
         Ok(len)
     }
 }
 
-fn read_field<R>(reader: &mut R, dst: &mut Vec<u8>) -> io::Result<(usize, bool)>
+const DELIMITER: u8 = b'\t';
+const LINE_FEED: u8 = b'\n';
+
+// Reads a field and returns the number of bytes read and what terminated the field: the delimiter,
+// a line feed, or `None` at the end of the input.
+fn read_field<R>(reader: &mut R, dst: &mut Vec<u8>) -> io::Result<(usize, Option<u8>)>
 where
     R: BufRead,
 {
-    const DELIMITER: u8 = b'\t';
-    const LINE_FEED: u8 = b'\n';
     const CARRIAGE_RETURN: u8 = b'\r';
 
     let start = dst.len();
@@ -284,7 +284,7 @@ where
         dst.pop();
     }
 
-    Ok((len, is_eol))
+    Ok((len, r#match))
 }
 
 // `BufRead::fill_buf` does not retry when the underlying reader is interrupted.
